@@ -305,6 +305,10 @@ func runC04(c *core.Ctx) {
 
 	runR43(c, prods)
 	runR44(c, prods)
+	c.Rule("R4.5", "chunk placement: chunk n of a value occupies bytes [chunkSize*n, min(chunkSize*n+chunkSize, totalLength)) computed from the metadata's chunk size and length", 2)
+	c.Rule("R4.6", "a loop collecting the replies of requests pipelined before it runs to its bound (NumChunks): no early exit leaves replies unread on the connection", 2)
+	checkChunkBounds(c, "R4.5")
+	checkReplyCollection(c, "R4.6")
 }
 
 func runR43(c *core.Ctx, prods map[*ssa.Function]keyProducer) {
@@ -537,4 +541,200 @@ func runR44(c *core.Ctx, prods map[*ssa.Function]keyProducer) {
 func hasErrResult(f *ssa.Function) bool {
 	res := f.Signature.Results()
 	return res.Len() > 0 && types.TypeString(res.At(res.Len()-1).Type(), nil) == "error"
+}
+
+// ---------------------------------------------------------------- R4.5 / R4.6
+
+// checkChunkBounds (R4.5): the function that places chunk n of a value computes start = chunkSize*n and
+// end = min(start+chunkSize, totalLength). Anything else mis-places or truncates a chunk for some length.
+func checkChunkBounds(c *core.Ctx, rule string) {
+	var fn *ssa.Function
+	for _, f := range pkgFuncs(c, relChunked) {
+		sig := f.Signature
+		if f.Parent() == nil && sig.Recv() == nil && sig.Params().Len() == 3 && sig.Results().Len() == 2 {
+			allInt := true
+			for i := 0; i < 3; i++ {
+				if types.TypeString(sig.Params().At(i).Type(), nil) != "int" {
+					allInt = false
+				}
+			}
+			if allInt && types.TypeString(sig.Results().At(0).Type(), nil) == "int" && types.TypeString(sig.Results().At(1).Type(), nil) == "int" {
+				fn = f
+			}
+		}
+	}
+	key := "chunked#chunk-slice-bounds"
+	if fn == nil {
+		c.Undecided(rule, key, "-", "no func(int, int, int) (int, int) found in package chunked")
+		return
+	}
+	// which parameter is which: the helper is called as f(metaData.ChunkSize, chunkNum, metaData.Length)
+	size, num, total := fn.Params[0], fn.Params[1], fn.Params[2]
+	var bad []string
+	rets := ssax.Returns(fn)
+	if len(rets) != 1 {
+		c.Undecided(rule, key, c.P.Pos(fn.Pos()), "several return sites")
+		return
+	}
+	ev := &ssax.SymEval{}
+	// start
+	startOK := false
+	if bo, ok := ssax.Unwrap(rets[0].Results[0]).(*ssa.BinOp); ok && bo.Op == token.MUL {
+		if (bo.X == ssa.Value(size) && bo.Y == ssa.Value(num)) || (bo.X == ssa.Value(num) && bo.Y == ssa.Value(size)) {
+			startOK = true
+		}
+	}
+	if !startOK {
+		bad = append(bad, "start is not chunkSize * chunkNum")
+	}
+	start := rets[0].Results[0]
+	// end = min(start+size, total)
+	isStartPlusSize := func(v ssa.Value) bool {
+		v = ssax.Unwrap(v)
+		if bo, ok := v.(*ssa.BinOp); ok && bo.Op == token.ADD {
+			return (ssax.Unwrap(bo.X) == start && ssax.Unwrap(bo.Y) == ssa.Value(size)) || (ssax.Unwrap(bo.Y) == start && ssax.Unwrap(bo.X) == ssa.Value(size))
+		}
+		return false
+	}
+	isTotal := func(v ssa.Value) bool { return ssax.Unwrap(v) == ssa.Value(total) }
+	endOK := false
+	end := ssax.Unwrap(rets[0].Results[1])
+	switch x := end.(type) {
+	case *ssa.Call:
+		if ssax.CalleeName(&x.Call) == "math.Min" && len(x.Call.Args) == 2 {
+			a, b := x.Call.Args[0], x.Call.Args[1]
+			if (isStartPlusSize(a) && isTotal(b)) || (isStartPlusSize(b) && isTotal(a)) {
+				endOK = true
+			}
+		}
+	case *ssa.Phi:
+		// if a > b { end = b } : a two-way choice between exactly the two operands, governed by their comparison
+		if len(x.Edges) == 2 {
+			var sp, tt int = -1, -1
+			for i, e := range x.Edges {
+				if isStartPlusSize(e) {
+					sp = i
+				}
+				if isTotal(e) {
+					tt = i
+				}
+			}
+			if sp >= 0 && tt >= 0 {
+				// the governing comparison relates the same two values and picks the smaller one
+				for _, p := range x.Block().Preds {
+					for _, ec := range append(ssax.DomConds(p), ssax.EdgeConds(p)...) {
+						bo, ok := ec.Cond.(*ssa.BinOp)
+						if !ok {
+							continue
+						}
+						l, r := bo.X, bo.Y
+						if (isStartPlusSize(l) && isTotal(r)) || (isStartPlusSize(r) && isTotal(l)) {
+							endOK = true
+						}
+					}
+				}
+				// the comparison may sit in the phi's own predecessor that branches
+				if idom := x.Block().Idom(); idom != nil {
+					if ifi, ok := idom.Instrs[len(idom.Instrs)-1].(*ssa.If); ok {
+						if bo, ok := ifi.Cond.(*ssa.BinOp); ok {
+							if (isStartPlusSize(bo.X) && isTotal(bo.Y)) || (isStartPlusSize(bo.Y) && isTotal(bo.X)) {
+								// which value is chosen on which edge
+								tEdge := idom.Succs[0]
+								// value chosen when the condition is true
+								chosenTrue := -1
+								for i, p := range x.Block().Preds {
+									if p == tEdge || tEdge.Dominates(p) {
+										chosenTrue = i
+									}
+								}
+								lIsSP := isStartPlusSize(bo.X)
+								// cond true means: X op Y
+								smallerIsX := bo.Op == token.LSS || bo.Op == token.LEQ
+								if chosenTrue >= 0 {
+									wantTrue := tt // default: if sp > total choose total
+									if (smallerIsX && lIsSP) || (!smallerIsX && !lIsSP) {
+										wantTrue = sp
+									}
+									endOK = chosenTrue == wantTrue
+								}
+							}
+						}
+					}
+				}
+			}
+		}
+	}
+	if !endOK {
+		bad = append(bad, "end is not recognisably min(start+chunkSize, totalLength) (found "+ev.Eval(rets[0].Results[1]).String()+")")
+	}
+	c.Check(len(bad) == 0, rule, key, c.P.Pos(fn.Pos()), "chunk n occupies [chunkSize*n, min(chunkSize*n+chunkSize, totalLength))", strings.Join(bad, "; ")+": for some value lengths a chunk's bytes are dropped or misplaced on read")
+	// and it is called with (ChunkSize, counter, Length) of the same metadata
+	n := 0
+	for _, f := range pkgFuncs(c, relChunked) {
+		ssax.Instrs(f, func(ins ssa.Instruction) {
+			cc := ssax.CallOf(ins)
+			if cc == nil || cc.StaticCallee() != fn {
+				return
+			}
+			n++
+			good := isFieldLoad(cc.Args[0], "ChunkSize") && isFieldLoad(cc.Args[2], "Length")
+			c.Check(good, rule, core.FuncName(f)+"#chunk-slice-args", c.P.Pos(ins.Pos()), "called with the metadata's chunk size and total length", "the chunk placement is not computed from the metadata's ChunkSize and Length")
+		})
+	}
+}
+
+// checkReplyCollection (R4.6 / R10.6): a loop that collects the replies of requests pipelined before it (its bound is
+// the same NumChunks the writing loop used) must run to its bound: an early exit leaves replies unread and the next
+// command on the connection reads them as its own.
+func checkReplyCollection(c *core.Ctx, rule string) {
+	memo := map[*ssa.Function]bool{}
+	n := 0
+	for _, fn := range pkgFuncs(c, relChunked) {
+		loops := ssax.Loops(fn)
+		counts := map[string]int{}
+		for _, l := range loops {
+			if !countedLoop(l) {
+				continue
+			}
+			// bound derives from NumChunks
+			ifi := l.Header.Instrs[len(l.Header.Instrs)-1].(*ssa.If)
+			bo := ifi.Cond.(*ssa.BinOp)
+			if !(isFieldLoad(bo.Y, "NumChunks") || isFieldLoad(bo.X, "NumChunks")) {
+				continue
+			}
+			reads, writes := false, false
+			for b := range l.Blocks {
+				for _, ins := range b.Instrs {
+					cc := ssax.CallOf(ins)
+					if cc == nil {
+						continue
+					}
+					if strings.HasPrefix(ssax.CalleeName(cc), pBinprot+".Write") {
+						writes = true
+					}
+					if callee := cc.StaticCallee(); callee != nil && len(callee.Blocks) > 0 && readsBackend(callee, 0, memo) {
+						reads = true
+					}
+				}
+			}
+			if !reads || writes {
+				continue
+			}
+			n++
+			key := ordinalKey(counts, core.FuncName(fn)+"#reply-collection")
+			var exits []string
+			for b := range l.Blocks {
+				for _, s := range b.Succs {
+					if !l.Blocks[s] && b != l.Header {
+						exits = append(exits, c.P.Pos(firstPos(s)))
+					}
+				}
+			}
+			c.Check(len(exits) == 0, rule, key, c.P.Pos(firstPos(l.Header)), "the loop reads one reply per pipelined request and has no other exit",
+				"the reply-collection loop can be left early (towards "+strings.Join(exits, ", ")+") while replies of the pipelined requests are still unread: the next command on this connection consumes them as its own")
+		}
+	}
+	if n == 0 {
+		c.Undecided(rule, "chunked#reply-collection-loops", "-", "no reply-collection loop found")
+	}
 }
